@@ -197,7 +197,9 @@ struct Pair {
                     r = doEq();
             } else if (op.kind == "copy") {
                 // copy of e[t] into e[1-t]: 0 copy construction, 1 copy assignment
-                std::string before = e[t]->lastExact;
+                Obs srcObs;
+                observe(e[t]->g, srcObs);
+                std::string before = obsText(srcObs, false, GT<G>::directed); // order-free: what an equal graph must share
                 if (op.i(0) & 1) {
                     e[1 - t]->g = e[t]->g;
                     e[1 - t]->m = e[t]->m;
@@ -211,7 +213,10 @@ struct Pair {
                 }
                 e[1 - t]->trace += "[copied]; ";
                 r = e[1 - t]->checkNow(observer);
-                if (r.empty() && e[1 - t]->lastExact != before) {
+                Obs cpObs;
+                if (r.empty())
+                    observe(e[1 - t]->g, cpObs);
+                if (r.empty() && obsText(cpObs, false, GT<G>::directed) != before) {
                     observer = "copy";
                     r = "a copy does not show the same observations as its source";
                 }
